@@ -949,6 +949,7 @@ func TestC01(t *testing.T) {
 	core.DFS(r, core.Check[largeCase]{Name: "large-sizes", Gen: genLarge([]string{"List", "Array"}), Exec: execLarge("C01"), NoJournal: true}, 0)
 	core.Rapid(r, core.Check[seqCase]{Name: "history", Gen: genSeqCase(false, 40), Exec: execSeqCase, HangLimit: 0}, r.N(4000, 40000))
 	core.DFS(r, core.Check[reentrantCase]{Name: "reentrant-elements", Gen: genReentrant([]string{"List", "Array"}), Exec: execReentrant("C01"), NoJournal: true}, 0)
+	core.DFS(r, core.Check[hugeCase]{Name: "huge-sizes", Gen: genHuge([]string{"Array", "List"}, []int{16389, 20003}), Exec: execHuge("C01"), NoJournal: true, HangLimit: 300 * time.Second}, 0)
 	core.DFS(r, core.Check[longLivedCase]{Name: "long-lived-instance", Gen: genLongLived([]string{"List"}, r.N(150000, 1200000)), Exec: execLongLived("C01"), NoJournal: true, HangLimit: 300 * time.Second}, 0)
 	// every history of up to 2 (quick) / 3 (thorough) operations over a 2-value alphabet, sizes 0..3
 	core.DFS(r, core.Check[seqCase]{Name: "small-histories", Gen: genSeqCase(true, r.N(1, 2)), Exec: execSeqCase, NoJournal: true}, r.N(400000, 0))
